@@ -167,6 +167,55 @@ def conditional(with_x):
     return out
 
 
+def bitnot(tp, tq, with_x):
+    """~ on multi-bit operands (bit-wise complement at the width of its context): alone, under an arithmetic
+    node, on either side of a relation; 'unique' over three names, one of them possibly non-random"""
+    out = []
+    cs = [Q_, ('lit', 2), ('lit', -1), ('ulit', 2, 2), ('ulit', 5, 3), ('slit', -1, 2), ('lit', tmax(tp))]
+    if with_x:
+        cs.append(X_)
+    for rel in ('==', '<', '>='):
+        for c in cs:
+            out.append(('expr', ('bin', rel, ('not', P_), c)))
+            out.append(('expr', ('bin', rel, c, ('not', P_))))
+    for op in ('+', '-', '&', '|', '^', '>>', '<<'):
+        for b in ([Q_, ('ulit', 2, 2), ('lit', 1)] + ([X_] if with_x else [])):
+            out.append(('expr', ('bin', '==', ('bin', op, ('not', P_), b), Q_)))
+            out.append(('expr', ('bin', '==', ('bin', op, b, ('not', P_)), ('ulit', 5, 3))))
+            out.append(('expr', ('bin', '<', ('not', ('bin', op, P_, b)), Q_)))
+    out.append(('expr', ('bin', '==', ('not', ('not', P_)), Q_)))
+    out.append(('expr', ('bin', '!=', ('not', P_), ('not', Q_))))
+    if with_x:
+        out.append(('expr', ('bin', '==', ('not', X_), P_)))
+        out.append(('expr', ('in', P_, [[('not', X_), ('lit', 6)]])))
+    return out
+
+
+def nonrand_compound(tier):
+    """a random field related to a compound expression over the non-random field only (arithmetic node or
+    complement): the solver sees the compound value at the width and sign of the comparison, and so must whatever
+    is inferred from it (value ranges)"""
+    out = []
+    bs = [('lit', 1), ('ulit', 2, 2), ('lit', -1)]
+    if tier != 'quick':
+        bs += [('ulit', 5, 3), ('lit', 3)]
+    for rel in ref.REL:
+        for op in ref.ARI:
+            for b in bs:
+                out.append(('expr', ('bin', rel, P_, ('bin', op, X_, b))))
+                out.append(('expr', ('bin', rel, ('bin', op, X_, b), P_)))
+                out.append(('expr', ('bin', rel, P_, ('bin', op, b, X_))))
+        out.append(('expr', ('bin', rel, P_, ('not', X_))))
+        out.append(('expr', ('bin', rel, ('not', X_), P_)))
+    # ranges whose bounds are compound and non-random
+    for lo, hi in ((('bin', '-', X_, ('lit', 1)), ('bin', '+', X_, ('lit', 1))), (('not', X_), ('lit', 6)),
+                   (('lit', 1), ('bin', '*', X_, ('ulit', 2, 2))), (('bin', '%', X_, ('lit', -1)), ('bin', '<<', X_, ('lit', 1)))):
+        out.append(('expr', ('in', P_, [[lo, hi]])))
+        out.append(('expr', ('in', P_, [0, [lo, hi]])))
+        out.append(('expr', ('notin', P_, [[lo, hi]])))
+    return out
+
+
 def single_statements(tp, tq, with_x, tier):
     st = depth1(tp, tq, with_x)
     if tier == 'quick':
@@ -175,6 +224,9 @@ def single_statements(tp, tq, with_x, tier):
         st += depth2(tp, tq, with_x, rels=ref.REL, full=True)
     st += boolean(with_x)
     st += conditional(with_x)
+    st += bitnot(tp, tq, with_x)
+    if with_x:
+        st += nonrand_compound(tier)
     if tp == tq:
         st.append(('unique', ['p', 'q']))
     return st
